@@ -20,8 +20,12 @@ def replay_history(prop, path, classes=None, times=3, hook=None):
     bad = 0
     for i in range(times):
         res = mod.CASE(rp['seed'], ops=ops, hook=hook)
-        print('replay %d: %s %s' % (i, res.get('verdict'), [v['key'] for v in res.get('violations', [])]))
-        if res.get('verdict') == 'violated':
+        from .framework import load_known
+        known = set(k['key'] for k in load_known() if k.get('property') == prop and k.get('status') == 'known')
+        keys = [v['key'] for v in res.get('violations', [])]
+        print('replay %d: %s %s%s' % (i, res.get('verdict'), [k for k in keys if k not in known],
+                                      (' known findings: %s' % sorted(set(k for k in keys if k in known))) if any(k in known for k in keys) else ''))
+        if res.get('verdict') == 'violated' and any(k not in known for k in keys):
             bad += 1
     common.cleanup_scratch()
     if bad:
